@@ -515,13 +515,23 @@ Fixpoint rq_loop (fuel : nat) (gap : bool) (c : connp) : connp * Z :=
            end
   end.
 
-(* Fuel. Every pass either returns, or advances in_current_read_offset, or moves along a chain of states that
-   read nothing: IDLE -> LINE, PROTOCOL -> HEADERS|FINALIZE, CONNECT_CHECK -> BODY_DETERMINE -> body state|FINALIZE,
-   WAIT_RESPONSE -> PROBE|FINALIZE, FINALIZE -> IDLE|IGNORE. A complete cycle IDLE..IDLE is at most 8 passes and reads
-   at least 3 bytes (a request line of >= 2 bytes, a header terminator), so 4 * len + 64 covers every history.
+(* Fuel. A pass that goes round again (rq_iter = inr) strictly decreases
+     Phi(c) = 16 * (in_current_len - in_current_read_offset) + rank(c),   0 <= rank(c) <= 15,
+   (PReq.rq_phi) because it either advances in_current_read_offset -- REQ_LINE (stream not closed), REQ_HEADERS (not
+   closed), the four body states and the junk-after-request path of REQ_FINALIZE return HTP_OK only after reading at
+   least one byte -- or reads nothing and moves down this ladder:
+     15 REQ_LINE on a closed stream with in_buf         14 the same without in_buf          13 REQ_PROTOCOL
+     12 REQ_HEADERS          11 REQ_CONNECT_CHECK       10 REQ_CONNECT_WAIT_RESPONSE        9/8 REQ_CONNECT_PROBE_DATA (in_tx set / NULL)
+      7 REQ_BODY_DETERMINE    6 the four body states     5/4 REQ_FINALIZE with in_tx (in_buf / none)   3 REQ_FINALIZE, in_tx NULL
+      2 REQ_IGNORE_DATA_AFTER_HTTP_0_9                   1 REQ_IDLE                          0 REQ_LINE (stream not closed)
+   (IDLE -> LINE; LINE(closed) -> LINE(closed, buffer cleared) | PROTOCOL; PROTOCOL -> HEADERS | FINALIZE; HEADERS(closed) ->
+   CONNECT_CHECK | FINALIZE; CONNECT_CHECK -> BODY_DETERMINE; WAIT_RESPONSE -> PROBE | FINALIZE; PROBE -> IDLE | IGNORE;
+   BODY_DETERMINE -> body state | FINALIZE; FINALIZE -> IDLE | IGNORE | FINALIZE with the buffer cleared (closed stream) or
+   with in_tx NULL (a callback destroyed the transaction: the next pass fails). Hence at most Phi + 1 <= 16 * len + 16 passes.
+   Stated as PReq.req_loop_fuel_sufficient_full; not machine-checked yet.
    (Before /repo commit 399f0a9 htp_connp_REQ_IDLE ignored the result of htp_tx_state_request_start, so a REQUEST_START
    callback that kept refusing made the real loop create transactions without reading a byte, unboundedly for max_tx = 0.) *)
-Definition rq_fuel (len : nat) : nat := (4 * len + 64)%nat.
+Definition rq_fuel (len : nat) : nat := (16 * len + 16)%nat.
 
 Definition connp_req_data (data : option bytes) (len : nat) (c : connp) : connp * Z :=
   if c_in_status c =? c_HTP_STREAM_STOP then (c, c_HTP_STREAM_STOP)
